@@ -230,6 +230,47 @@ def _no(msg):
     return False
 
 
+_UNC = {"en": False}
+
+
+@harness("C06", args="first: bool, wide: int", pre=["0 <= wide <= 1"], tiers={"quick": {"timeout": 120}}, sample=(False, 1),
+         bounds="two different modules produced by equal calls of an UN-cached generator (its result depends on state outside its parameters): to_proto may refuse the name clash; a package it returns must be closed",
+         generalises="selectors", outside="")
+def uncached_generator_closed(first, wide):
+    first, wide = bool(first), env.pick(wide, 0, 1)
+    with env.notrace():
+        env._reset_all()
+        if "G" not in _UNC:
+            @h.generator(enable_cache=False)
+            def Buf(_: h.HasNoParams) -> h.Module:
+                m = h.Module()
+                m.inp, m.out = h.Input(width=1 + _UNC["w"]), h.Output()
+                if _UNC["en"]:
+                    m.en = h.Input()
+                return m
+            _UNC["G"] = Buf
+        Buf = _UNC["G"]
+        top = h.Module(name="Top")
+        top.a, top.b, top.en, top.a2 = h.Signal(), h.Signal(), h.Signal(), h.Signal(width=2)
+        _UNC["en"], _UNC["w"] = first, 0
+        b1 = Buf()
+        _UNC["en"], _UNC["w"] = not first, wide
+        b2 = Buf()
+        for nm, bm, en in (("b1", b1, first), ("b2", b2, not first)):
+            conns = dict(inp=top.a2 if bm.inp.width == 2 else top.a, out=top.b)
+            if en:
+                conns["en"] = top.en
+            top.add(bm(**conns), name=nm)
+        try:
+            pkg = h.to_proto(top)
+        except Exception:
+            env.COUNTS["reached"] += 1
+            return True
+        env.COUNTS["reached"] += 1
+        probs = check_package(pkg)
+        return not probs or _no("not closed: " + "; ".join(probs[:3]))
+
+
 @harness("C06", args="same: bool, d0: int, d1: int, deep: bool", pre=["0 <= d0 <= 2", "0 <= d1 <= 2"],
          tiers={"quick": {"timeout": 120}}, sample=(False, 0, 1, False),
          bounds="the namesake designs with equal port lists: the spice and spectre netlisters accept every package to_proto returns (one name in two different domains: known finding)",
